@@ -94,6 +94,9 @@ func propC07(c *Ctx, r *Report) {
 	ruleRevalidation(c, r, "C07-R8/revalidation-height")
 	// a held conversion stays in holding until the first rated block: holding rows are never deleted (shared with C06-R5)
 	ruleInsertOnly(c, r, cat, "C07-R10/holding-kept")
+	ruleRatesExactHeight(c, r, cat, "C07-R12/rates-exact-height")
+	r.rule("C07-R13/loopvar-alias", 1, "no per-loop variable is retained (by address or by a deferred closure) across iterations in block processing")
+	ruleLoopVarAlias(c, r, "C07-R13/loopvar-alias", c.RSync)
 	// every conversion the protocol admits is executed: the admission table of the executor (shared with C13)
 	ruleAdmissionTable(c, r, e, "C07-R11/admission-table")
 	// every height of the holding window is visited and every batch of it considered (shared with C06-R10)
